@@ -583,13 +583,16 @@ impl From<Vec<OrderedFloat<f64>>> for DataSection {
 
 fn decode<'a>(codec: &Codec, sections: &[&'a dyn Data<'a>]) -> BoxedData<'a> {
     let mut section_stack: Vec<BoxedData<'a>> = vec![sections[0].slice_box(0, sections[0].len())];
+    // The ops that follow `Nullable` in a codec (`ToI64`, `Add`, `DictLookup`, ...) produce plain
+    // vectors, so the null map is attached to the fully decoded data at the end
+    let mut null_map: Option<Vec<u8>> = None;
     for codec_op in codec.ops() {
         let arg0 = section_stack.first().unwrap();
         let decoded = match codec_op {
             CodecOp::Nullable => {
                 let present = section_stack.pop().unwrap();
-                let mut data = section_stack.pop().unwrap();
-                data.make_nullable(present.cast_ref_u8())
+                null_map = Some(present.cast_ref_u8().to_vec());
+                section_stack.pop().unwrap()
             }
             CodecOp::Add(encoding_type, value) => match encoding_type {
                 EncodingType::U8 => Box::new(
@@ -834,5 +837,9 @@ fn decode<'a>(codec: &Codec, sections: &[&'a dyn Data<'a>]) -> BoxedData<'a> {
         section_stack.push(decoded);
     }
 
-    section_stack.pop().unwrap()
+    let mut decoded = section_stack.pop().unwrap();
+    match null_map {
+        Some(present) => decoded.make_nullable(&present),
+        None => decoded,
+    }
 }
